@@ -83,6 +83,11 @@ SYNTHETIC_FAMILIES = [
     "[numa(memorysidecachesize=1GB)] pack:2 [numa(memorysidecachesize=256MB)] pu:2",
     "node:3(indexes=2,0,1) core:1 pu:2",
     "pack:2 die:2 [numa(indexes=3,2,1,0)] l2:1 core:1 pu:1",
+    # number-only descriptions: hwloc assigns the types itself (up to four automatic cache levels)
+    "2 1 2 1 2 1 2 2",
+    "2 [numa] 1 2 1 2 1 2",
+    "2 2 2",
+    "3 1 2 2 1 2",
 ]
 
 
